@@ -15,28 +15,38 @@
 (* reachable states (bounded only by MaxDraws on the draw counter).  Runs    *)
 (* are drawn from McKinds x McCfgs x McTags (the tag makes a run's standard  *)
 (* input its own).  Among the clears, "dash" (the scanners map: the scanner  *)
-(* of getline < "-"), "status" and "ctx" (the call installs its own context) *)
-(* are load-bearing: without any of them TLC violates Refines.               *)
+(* of getline < "-"), "status", "ctx" (the call installs its own context)    *)
+(* and "range" (the flags of the range patterns are new for every pass over  *)
+(* the input) are load-bearing: without any of them TLC violates Refines.    *)
+(* ResetVars empties ARGV, ENVIRON and FIELDS with the other arrays and      *)
+(* resets RT (ResetsAreExact); FreshAfterReset covers what a later run       *)
+(* enumerates of them, the generator restarted, the range closed.            *)
 (* With Clears = CoreFields \ {"hdr"} (the code as built) TLC violates all   *)
 (* three: the counterexample is DESIGN F11.                                  *)
 EXTENDS Reuse
 
 CONSTANT Clears, MaxDraws, JudgeKinds, JudgeCfgs, McKinds, McCfgs, McTags
 
-VARIABLES sp, cd, rv, rr, res
-vars == <<sp, cd, rv, rr, res>>
+\* ok: the last run gave the same result (output, status, error) under ExecSpec and under ExecCode.  (The results
+\* themselves are not kept in the state: the reachable states are then the reachable PAIRS OF INTERPRETER STATES,
+\* not multiplied by everything a run can print; a differing pair of results is printed when it occurs.)
+VARIABLES sp, cd, rv, rr, ok
+vars == <<sp, cd, rv, rr, ok>>
 
-Init == sp = StInit /\ cd = StInit /\ rv = FALSE /\ rr = FALSE /\ res = <<"none", "none">>
+Init == sp = StInit /\ cd = StInit /\ rv = FALSE /\ rr = FALSE /\ ok = TRUE
 
 \* (bound with \E over a singleton: TLC evaluates a LET body anew at every reference inside an action)
 DoRun(kind, cfg) ==
   \E es \in {ExecSpec(sp, kind, cfg)} : \E ec \in {ExecCode(cd, kind, cfg, Clears)} :
-     /\ sp' = es.st /\ cd' = ec.st
-     /\ res' = <<es.res, ec.res>>
+     \* (what the run leaves in the per-run state is kept only as far as a later run can see it: nothing of it
+     \* under ExecSpec; under ExecCode what resetCore does not clear and setExecuteConfig does not overwrite)
+     /\ sp' = [es.st EXCEPT !.pr = PrInit] /\ cd' = [ec.st EXCEPT !.pr = Settled(@, Clears)]
+     /\ ok' = (es.res = ec.res)
+     /\ (es.res = ec.res \/ PrintT(<<"Refines: results differ", kind, cfg.name, es.res, ec.res>>))
      /\ rv' = FALSE /\ rr' = FALSE
 
-DoResetVars == sp' = ResetVarsOp(sp) /\ cd' = ResetVarsOp(cd) /\ rv' = TRUE /\ UNCHANGED <<rr, res>>
-DoResetRand == sp' = ResetRandOp(sp) /\ cd' = ResetRandOp(cd) /\ rr' = TRUE /\ UNCHANGED <<rv, res>>
+DoResetVars == sp' = ResetVarsOp(sp) /\ cd' = ResetVarsOp(cd) /\ rv' = TRUE /\ UNCHANGED <<rr, ok>>
+DoResetRand == sp' = ResetRandOp(sp) /\ cd' = ResetRandOp(cd) /\ rr' = TRUE /\ UNCHANGED <<rv, ok>>
 
 Next == \/ \E kind \in McKinds, cn \in McCfgs, tag \in McTags : DoRun(kind, WithTag(CfgNamed(cn), tag))
         \/ DoResetVars \/ DoResetRand
@@ -44,7 +54,7 @@ Spec == Init /\ [][Next]_vars
 
 Bounded == sp.rnd.idx <= MaxDraws
 
-Refines == res[1] = res[2]
+Refines == ok
 
 NextResult(st, kind, cfg) == ExecCode(st, kind, cfg, Clears).res
 
